@@ -17,7 +17,8 @@ RULE = ('the real CVise.parse_pass_group_dict on (a) every shipped group under e
         '(dropped category, missing "pass", unknown pass, unknown option in include/exclude of active and of filtered-out rows, '
         'reordered rows, random flags); compared: per category the list of (pass, class, arg, max-transforms) or the error kind '
         'and the item it names, against the Coq parser evaluated on the generated term; an independent reading of the JSON '
-        '(the documented rules, 20 lines of Python) is a second oracle; non-trivial = distinct (group, options) pairs')
+        '(the documented rules, 20 lines of Python) is a second oracle; non-trivial = distinct (group, options) pairs'
+        ' Also: include / exclude lists naming several options of which only some are active.')
 TRUSTED = ['translator tools/gen/passgroups.py (Python ast + json, fail-closed) regenerates pass_table, valid_options and the four shipped groups on every run',
            'hand-written parser model coq/Config/PassGroup.v tied by correspondence to cvise/cvise.py parse_pass_group_dict']
 ASSUMPTIONS = ['"max-transforms" values are integers (a non-integer raises ValueError in int(): outside the three error classes the property names)']
